@@ -7,19 +7,20 @@
 #include "common/c01_core.hpp"
 #include <kernel/util/memory_pool.hpp>
 #include <kernel/lafem/sparse_vector_blocked.hpp>
+#include <kernel/lafem/sparse_vector.hpp>
 #include <memory>
 using namespace vf;
 
 typedef DenseVector<double, std::uint64_t> DV64;
 typedef DenseVector<float, std::uint32_t> DV32;
-typedef DenseVectorBlocked<double, std::uint64_t, 2> DVB2; typedef SparseVectorBlocked<double, std::uint64_t, 2> SVB2;
+typedef DenseVectorBlocked<double, std::uint64_t, 2> DVB2; typedef SparseVectorBlocked<double, std::uint64_t, 2> SVB2; typedef SparseVector<double, std::uint64_t> SV64;
 typedef SparseMatrixCSR<double, std::uint64_t> CSR64;
 typedef SparseMatrixCSR<float, std::uint32_t> CSR32;
 typedef SparseMatrixBCSR<double, std::uint64_t, 2, 2> BCSR22;
 typedef SparseMatrixCSCR<double, std::uint64_t> CSCR;
 typedef SparseMatrixBanded<double, std::uint64_t> BAND;
-enum Kind { K_DV64, K_DV32, K_DVB2, K_CSR64, K_CSR32, K_BCSR22, K_CSCR, K_BAND, K_SVB2, K_COUNT };
-static const char* kname[] = {"dv<double,u64>", "dv<float,u32>", "dvb<2>", "csr<double,u64>", "csr<float,u32>", "bcsr<2,2>", "cscr", "banded", "svb<2>"};
+enum Kind { K_DV64, K_DV32, K_DVB2, K_CSR64, K_CSR32, K_BCSR22, K_CSCR, K_BAND, K_SVB2, K_COUNT, K_SV64 = K_COUNT };   // K_SV64 is decoded as a variant of K_SVB2 (keeps the kind draw of stored tapes)
+static const char* kname[] = {"dv<double,u64>", "dv<float,u32>", "dvb<2>", "csr<double,u64>", "csr<float,u32>", "bcsr<2,2>", "cscr", "banded", "svb<2>", "sv<double,u64>"};
 
 // ---------------------------------------------------------------- model
 struct Arr { bool is_index = false; size_t count = 0, esz = 0; std::vector<double> dv; std::vector<std::uint64_t> iv; bool defined = true; };
@@ -89,7 +90,7 @@ template<typename C, int K> struct ObjT : Obj
   void move_assign(Obj& other) override { c = std::move(static_cast<ObjT&>(other).c); }
   void clear() override { c.clear(); }
   void format(double v) override { c.format(DT(v)); }
-  void copy_from(const Obj& other) override { if constexpr(K != K_SVB2) c.copy(static_cast<const ObjT&>(other).c); else (void)other; }
+  void copy_from(const Obj& other) override { if constexpr(K != K_SVB2 && K != K_SV64) c.copy(static_cast<const ObjT&>(other).c); else (void)other; }
   std::unique_ptr<Obj> reserialize() const override { auto buf = c.serialize(); auto* o = new ObjT(); o->c.deserialize(buf); return std::unique_ptr<Obj>(o); }
   std::unique_ptr<Obj> from_layout() const override
   {
@@ -117,9 +118,9 @@ template<typename C, int K> struct LHoldT : LHold
   void move_assign(LHold& other) override { lay = std::move(static_cast<LHoldT&>(other).lay); }
 };
 typedef ObjT<DV64, K_DV64> ODV64; typedef ObjT<DV32, K_DV32> ODV32; typedef ObjT<DVB2, K_DVB2> ODVB2; typedef ObjT<CSR64, K_CSR64> OCSR64;
-typedef ObjT<CSR32, K_CSR32> OCSR32; typedef ObjT<BCSR22, K_BCSR22> OBCSR; typedef ObjT<CSCR, K_CSCR> OCSCR; typedef ObjT<BAND, K_BAND> OBAND; typedef ObjT<SVB2, K_SVB2> OSVB2;
+typedef ObjT<CSR32, K_CSR32> OCSR32; typedef ObjT<BCSR22, K_BCSR22> OBCSR; typedef ObjT<CSCR, K_CSCR> OCSCR; typedef ObjT<BAND, K_BAND> OBAND; typedef ObjT<SVB2, K_SVB2> OSVB2; typedef ObjT<SV64, K_SV64> OSV64;
 
-static bool is_matrix(int k) { return k >= K_CSR64 && k != K_SVB2; }
+static bool is_matrix(int k) { return k >= K_CSR64 && k != K_SVB2 && k != K_SV64; }
 static size_t esz_of(int k) { return (k == K_DV32 || k == K_CSR32) ? 4 : 8; }
 static size_t isz_of(int k) { return (k == K_DV32 || k == K_CSR32) ? 4 : 8; }
 
@@ -191,6 +192,14 @@ static std::unique_ptr<Obj> build(Tape& t, int kind, J& h)
     long n = t.sized(1, 6); long m = t.sized(0, (int)(3 * n + 2)); std::vector<double> v = gen_values(t, (size_t)(2 * m), vcls); std::vector<long> ix; for(long k = 0; k < m; ++k) ix.push_back(t.range(0, (int)n - 1));
     h.set("n", n); h.set("inserted", J(ix)); SVB2 a((Index)n); for(long k = 0; k < m; ++k) { Tiny::Vector<double, 2> q; q[0] = v[(size_t)(2 * k)]; q[1] = v[(size_t)(2 * k + 1)]; a((Index)ix[(size_t)k], q); }
     a.sort();   // the lazy sort/merge happens here, not inside a later const operation
+    // scalar sparse vector from the same insertion list (drawn last: tapes without this kind decode as before). 0..3n+2
+    // back-to-back insertions into a vector of size n: the arrays are exactly full after n of them, the (n+1)st must
+    // re-allocate (seeded C20k wrote it one past the end); checked after the build like every other command:
+    // recorded counts <= pool block sizes, pool total == model, ASan on the fuzz flavour
+    if(t.flag(1, 3)) { h.set("kind", kname[K_SV64]); SV64 b((Index)n); for(long k = 0; k < m; ++k) b((Index)ix[(size_t)k], v[(size_t)(2 * k)]);
+      VF_CHECK(b.get_scalar_index().at(1) <= b.allocated_elements(), "SparseVector holds " << b.get_scalar_index().at(1) << " unsorted entries in arrays of capacity " << b.allocated_elements());
+      if(m > 0) VF_CHECK(MemoryPool::allocated_size(b.get_elements().at(0)) >= b.allocated_elements() * sizeof(double) && MemoryPool::allocated_size(b.get_indices().at(0)) >= b.allocated_elements() * sizeof(std::uint64_t), "SparseVector: allocated_elements() = " << b.allocated_elements() << " exceeds the pool blocks");
+      b.sort(); return std::unique_ptr<Obj>(new OSV64(std::move(b))); }
     return std::unique_ptr<Obj>(new OSVB2(std::move(a))); }
   case K_BAND: { Band b = gen_band(t, 6, vcls); h.set("A", b.json()); return std::unique_ptr<Obj>(new OBAND(make_banded<double, std::uint64_t>(b))); }
   default: { Pat p = gen_pattern(t, 6, vcls); h.set("A", p.json());
@@ -216,12 +225,12 @@ static void history_case(Tape& t, Ctx& c)
     int si = live.empty() ? 0 : live[(size_t)t.range(0, (int)live.size() - 1)]; int di = t.range(0, 7);
     J h = J::obj(); std::string opn = on[op];
     MSlot src = w.m.s[si];
-    if(!live.empty() && src.kind == K_SVB2 && (op == O_SERIAL || op == O_COPY || op == O_SHARE)) op = O_CLONE, opn = on[op];   // (serialisation of sparse vectors: C05; no copy(); same-type convert is a documented deep copy)
+    if(!live.empty() && (src.kind == K_SVB2 || src.kind == K_SV64) && (op == O_SERIAL || op == O_COPY || op == O_SHARE)) op = O_CLONE, opn = on[op];   // (serialisation of sparse vectors: C05; no copy(); same-type convert is a documented deep copy)
     // views (foreign memory) only support: deep clone, write, destroy, (being read)
     if(!live.empty() && src.view && op != O_LAYOBJ && !(op == O_CLONE || op == O_WRITE || op == O_DESTROY || op == O_BUILD || op == O_MOVEC || op == O_MOVEA)) op = O_DESTROY, opn = on[op];
     switch(op)
     {
-    case O_BUILD: { int kind = t.range(0, K_COUNT - 1); h.set("op", opn); h.set("dst", di); h.set("kind", kname[kind]); auto nb = build(t, kind, h); w.note(h, opn); w.drop(di); w.o[di] = std::move(nb); w.adopt(di); break; }
+    case O_BUILD: { int kind = t.range(0, K_COUNT - 1); h.set("op", opn); h.set("dst", di); h.set("kind", kname[kind]); auto nb = build(t, kind, h); c.label(std::string("built:") + kname[nb->kind()]); w.note(h, opn); w.drop(di); w.o[di] = std::move(nb); w.adopt(di); break; }
     case O_CLONE: { int mode = src.view ? 3 : t.range(0, 4); if(di == si) di = (si + 1) % 8; static const char* mn[] = {"shallow", "layout", "weak", "deep", "allocate"};
       opn = std::string("clone:") + mn[mode]; h.set("op", opn); h.set("src", si); h.set("dst", di); w.note(h, opn);
       // an existing object of the same kind in the target slot (a range view included) is RE-USED as the target of clone(other, mode), unless the
